@@ -71,7 +71,7 @@ func init() {
 			"distinct_nontrivial = distinct (call configuration, schedule signature) pairs in which at least two workers (or a worker and the caller) were interleaved inside the call",
 		Scenarios: []ScenCfg{
 			{Name: "pool-scans", Race: true, Chunk: 40, QuickRuns: 1600, QuickS: 30, ThoroughRuns: 400000, ThoroughS: 500, Procs: 4, DetQuick: 24, DetThorough: 120},
-			{Name: "add-field", Race: true, Chunk: 6, QuickRuns: 160, QuickS: 30, ThoroughRuns: 40000, ThoroughS: 500, Procs: 4, Workers: 12, DetQuick: 6, DetThorough: 30},
+			{Name: "add-field", Race: true, Chunk: 6, QuickRuns: 224, QuickS: 40, ThoroughRuns: 40000, ThoroughS: 500, Procs: 4, Workers: 12, DetQuick: 6, DetThorough: 30},
 			{Name: "march", Race: true, Chunk: 1, QuickRuns: 32, QuickS: 25, ThoroughRuns: 4000, ThoroughS: 400, Procs: 4, DetQuick: 0, DetThorough: 6},
 			{Name: "march-norace", Race: false, Chunk: 4, QuickRuns: 128, QuickS: 20, ThoroughRuns: 40000, ThoroughS: 400, Procs: 4, DetQuick: 4, DetThorough: 16},
 		},
